@@ -209,10 +209,10 @@ func Compute(
 		(t != nil && t.Dim != n) {
 		return nil, sparse.ErrDimensionMismatch
 	}
-	if a < 0 || a > 1 {
+	if !(a >= 0 && a <= 1) { // also rejects NaN
 		return nil, fmt.Errorf("hunch %#v out of range [0..1]", a)
 	}
-	if e <= 0 {
+	if !(e > 0) { // also rejects NaN, which no delta ever compares <= to
 		return nil, fmt.Errorf("epsilon %#v is not positive", e)
 	}
 	if numLeaders == 0 {
